@@ -29,7 +29,8 @@ RULE = (
     "de-duplicated on the full representation incl. cached lengths and subdivision; in every state the battery (area, "
     "moment, signed length and orientation of every curve, box, membership of a 5x5 grid, curve-curve intersections, A==B, B in A, A in B, X|C, "
     "X&C, X-C, X^C) is asked of the live objects and of freshly rebuilt copies and must agree (exactly for rational "
-    "polygons and booleans/kinds, rel 1e-9 for floats; orientation sign exactly, length magnitude rel 1e-9), and asking "
+    "polygons and booleans/kinds, rel 1e-9 for floats; orientation sign exactly, length magnitude rel 1e-9), agree with a fresh "
+    "copy whose redundant vertices were cleaned away (answers must not depend on the subdivision the operators leave behind), and asking "
     "twice gives the same answers. Configuration axis: 60 programs in fresh processes with PYTHONHASHSEED 0/1/4242/"
     "random, cold vs warm memo tables: identical dumps."
 )
